@@ -22,6 +22,12 @@ PAST = datetime.datetime(2000, 1, 1)
 FUTURE = datetime.datetime(2200, 1, 1)
 
 
+def _exp(kind):
+    """expiry kinds -> values; 'today' is today's date at 00:00: not in the past"""
+    today = datetime.datetime.now().replace(hour=0, minute=0, second=0, microsecond=0)
+    return {'past': PAST, 'future': FUTURE, 'none': None, 'today': today, 'yesterday': today - datetime.timedelta(1)}[kind]
+
+
 def required(tier):
     return {'perdictable_rows_model': 300, 'calls_exactly_once_per_recomputed_row': 300, 'expired_rows_keep_value_no_call': 60, 'all_scalar_returns_f': 40, 'join_model': 300, 'sorted_by_key': 300}
 
@@ -149,6 +155,7 @@ def run_case(case, ctx):
         return run_alldef(case, ctx)
     from pyg_base import perdictable, dictable
     from pyg_base._perdictable import join
+    day0 = datetime.date.today()
     kt = case['kt']
     on = case['on']
     params = case['params']
@@ -161,7 +168,7 @@ def run_case(case, ctx):
     g = {'_log': log}
     exec(src, g)
     f = g['f']
-    inputs_t = {n: (s if isinstance(s, dict) and 'rows' in s else codec.dec(s)) for n, s in case['inputs'].items()}
+    inputs_t = {n: (dict(s, rows=[dict(r, v=codec.dec(r['v'])) for r in s['rows']]) if isinstance(s, dict) and 'rows' in s else codec.dec(s)) for n, s in case['inputs'].items()}
     live = {}
     for n, s in inputs_t.items():
         live[n] = build_table(s, n, kt) if isinstance(s, dict) and 'rows' in s else s
@@ -203,10 +210,10 @@ def run_case(case, ctx):
         call_kw['data'] = dictable(pt) if prev['rows'] else dictable([], list(pt))
         exprows = [r for r in prev['rows'] if r['exp'] != 'absent']
         if case.get('expiry_scalar') is not None:
-            call_kw['expiry'] = {'past': PAST, 'future': FUTURE, 'none': None}[case['expiry_scalar']]
+            call_kw['expiry'] = _exp(case['expiry_scalar'])
         elif exprows:
             et = {c: [kval(kt, r[c]) for r in exprows] for c in prev['on']}
-            et['expiry'] = [{'past': PAST, 'future': FUTURE, 'none': None}[r['exp']] for r in exprows]
+            et['expiry'] = [_exp(r['exp']) for r in exprows]
             call_kw['expiry'] = dictable(et)
         for r in prev['rows']:
             e = case['expiry_scalar'] if case.get('expiry_scalar') is not None else r['exp']
@@ -228,9 +235,11 @@ def run_case(case, ctx):
     del log[:]
     if mrows is None and case.get('scalar_cache'):
         call_kw['data'] = case['scalar_cache'][0]
-        call_kw['expiry'] = {'past': PAST, 'future': FUTURE, 'none': None}[case['scalar_cache'][1]]
+        call_kw['expiry'] = _exp(case['scalar_cache'][1])
     st, res = ctx.call(p, **call_kw)
     calls = list(log)
+    if datetime.date.today() != day0 and 'today' in repr(case):
+        return          # the calendar day changed while this case ran: 'today' is ambiguous, nothing is claimed
     if mrows is None:
         # all scalars: returns f(...) itself
         exp = ('f',) + tuple(inputs_t.get(q, case['fdefaults'].get(q)) for q in params)
@@ -242,7 +251,7 @@ def run_case(case, ctx):
         key = tuple(r[c] for c in (prev['on'] if prev else []))
         args = tuple(r[q] if q in r else case['fdefaults'][q] for q in params)
         pv = prev_by_key.get(key) if prev else None
-        if pv is not None and pv[1] == 'past':
+        if pv is not None and pv[1] in ('past', 'yesterday'):
             val = pv[0]; kept += 1
         else:
             val = ('f',) + args
@@ -308,7 +317,9 @@ def gen_case(rng):
         vmode = rng.random()
         def val(k):
             if vmode < 0.2:
-                return rng.choice(['tie', 'tie', 7, None])        # equal values on several keys, None as a genuine value
+                return rng.choice(['tie', 'tie', 7, None])
+            if vmode < 0.35 and rng.random() < 0.4:
+                return {'$nan': rng.randrange(20)}          # a missing print is a value of the table like any other: the key is present        # equal values on several keys, None as a genuine value
             if vmode < 0.3 and rng.random() < 0.3:
                 return None
             return '%s%s' % (p, ''.join(str(k[c]) for c in t_on))
@@ -371,7 +382,7 @@ def gen_case(rng):
         rows = []
         whole = rng.random() < 0.25
         for k in (pool if whole else rng.sample(pool, rng.randint(0, len(pool)))):
-            rows.append(dict(k, v=(None if rng.random() < 0.15 else 'old%s' % ''.join(str(k[c]) for c in on)), exp=rng.choice(['absent', 'past', 'past', 'future', 'none'])))
+            rows.append(dict(k, v=(None if rng.random() < 0.15 else 'old%s' % ''.join(str(k[c]) for c in on)), exp=rng.choice(['absent', 'past', 'past', 'future', 'none', 'today', 'yesterday'])))
         case['prev'] = {'on': on, 'rows': rows}
         if rows and whole and rng.random() < 0.7:
             case['expiry_scalar'] = rng.choice(['past', 'future', 'none'])
